@@ -630,5 +630,94 @@ C14Table(T) ==
   \cup { V("C14", "configured-code-not-returned-by-the-table", i, "none", T.ev[i].cond, T.ev[i].got) :
     i \in { i \in DOMAIN T.ev : T.ev[i].exc = "none" /\ T.ev[i].got # T.ev[i].code } }
 
-Violations(T) == C01(T) \cup C02(T) \cup C03(T) \cup C10(T) \cup C07(T) \cup C08(T) \cup C19(T) \cup C05(T) \cup C06(T) \cup C15(T) \cup C12(T) \cup C13(T) \cup C14(T) \cup C14Table(T)
+\* ===== C04: retry limits are honoured exactly; a silent peer cannot hang a transaction =====
+\* Observers over the clock and the emitted PDUs only.  For a positive-ACK procedure (EOF at the sender, Finished at the
+\* receiver): the timer restarts at every (re-)emission, an expiry is a call at which now - last emission >= interval,
+\* the retry count is the number of emissions carrying the current condition code minus one.
+EmitIdx(T, side, seq, kind, upto) ==   \* events < upto of that side that emitted a PDU of that kind for that transaction
+  { j \in 1..(upto - 1) : T.ev[j].side = side /\ \E k \in DOMAIN T.ev[j].out : T.ev[j].out[k].t = kind /\ T.ev[j].out[k].h.qv = seq }
+LastPduOf(e, kind) == LET q == SelectSeq(e.out, LAMBDA p : p.t = kind) IN q[Len(q)]
+HasFlt(e, cond) == \E k \in DOMAIN e.flt : e.flt[k].cond = cond
+C04Ack(T, side, kind, waitStep, lim) ==
+  UNION { LET e == T.ev[i]
+              ems == EmitIdx(T, side, e.pre.tseq, kind, i) IN
+          IF ems = {} THEN {} ELSE
+          LET lastE == LastIdx(ems)
+              cond == LastPduOf(T.ev[lastE], kind).cond
+              \* a fresh start of the procedure: the PDU was not emitted by a timer re-send (other step, a cancel request, or the
+              \* call that declared the limit fault and cancelled); re-sends = emissions since the last fresh start
+              fresh == { j \in ems : T.ev[j].pre.step \notin {waitStep, "RETRANSMITTING"} \/ T.ev[j].call # "fsm" \/ HasFlt(T.ev[j], "POSITIVE_ACK_LIMIT_REACHED") }
+              resends == IF fresh = {} THEN Cardinality(ems) - 1 ELSE Cardinality({ j \in ems : j > LastIdx(fresh) })
+              expired == e.now - T.ev[lastE].now >= T.cfg.ackInt
+              resent == \E k \in DOMAIN e.out : e.out[k].t = kind /\ e.out[k].cond = cond
+              limitFlt == HasFlt(e, "POSITIVE_ACK_LIMIT_REACHED") \/ (cond # "NO_ERROR" /\ \E k \in DOMAIN e.flt : e.flt[k].k = "abandon")
+              B(c) == {V("C04", c, i, Kf(T), kind, "")} IN
+          (IF ~expired /\ resent THEN B("re-sent-before-the-timer-expired") ELSE {})
+          \cup (IF ~expired /\ HasFlt(e, "POSITIVE_ACK_LIMIT_REACHED") THEN B("positive-ack-limit-fault-before-the-timer-expired") ELSE {})
+          \cup (IF expired /\ resends + 1 < lim /\ limitFlt THEN B("positive-ack-limit-fault-before-the-limit-th-expiry") ELSE {})
+          \cup (IF expired /\ resends + 1 < lim /\ ~resent /\ ~limitFlt THEN B("not-re-sent-at-the-expiry") ELSE {})
+          \cup (IF expired /\ resends + 1 >= lim /\ ~limitFlt THEN B("no-positive-ack-limit-fault-at-the-limit-th-expiry") ELSE {})
+          : i \in { i \in OfSide(T, side) : /\ T.ev[i].call = "fsm" /\ T.ev[i].exc = "none" /\ T.ev[i].pre.step = waitStep
+                                             /\ T.ev[i].arg.t = "none" } }
+\* deferred NAK procedure: issuance = a poll (no inbound PDU) that emits NAK PDUs while the procedure is active, or the call
+\* that started the procedure; progress (File Data while waiting for data, Metadata / EOF while waiting for metadata) restarts
+\* timer and count
+C04Nak(T) ==
+  LET ds == SetToSortSeq(OfSide(T, "D"), <)
+      NakSteps == {"WAITING_FOR_MISSING_DATA", "WAITING_FOR_METADATA"}
+      \* st: lastOld / nMax follow the reading with the fewest restarts (only what certainly is progress: File Data accepted
+      \* while waiting for data, Metadata / EOF while waiting for metadata), lastNew / nMin the one with the most (any inbound
+      \* PDU).  "Never earlier" is judged against the first, "never later" against the second, so that neither demands more
+      \* than the statement.
+      step(st, i) ==
+        LET e == T.ev[i]
+            naks == \E k \in DOMAIN e.out : e.out[k].t = "NAK"
+            active == e.pre.deferred /\ e.pre.step \in NakSteps
+            stillOn == e.post.deferred /\ e.post.step \in NakSteps
+            B(c) == {V("C04", c, i, Kf(T), "NAK", "")} IN
+        IF e.call # "fsm" \/ e.exc # "none" THEN (IF e.post.state = "IDLE" \/ ~stillOn THEN [st EXCEPT !.on = FALSE] ELSE st)
+        ELSE IF ~active THEN
+             (IF stillOn THEN [on |-> TRUE, lastOld |-> e.now, lastNew |-> e.now, nMax |-> 0, nMin |-> 0, v |-> st.v] ELSE [st EXCEPT !.on = FALSE])
+        ELSE IF ~st.on THEN st
+        ELSE IF e.arg.t # "none" THEN
+             LET sure == \/ (e.arg.t = "FD" /\ e.pre.step = "WAITING_FOR_MISSING_DATA")
+                         \/ (e.arg.t \in {"MD", "EOF"} /\ e.pre.step = "WAITING_FOR_METADATA") IN
+             \* (a call with an inbound PDU may itself re-issue the sequence: counted for the reading with the most expiries)
+             [st EXCEPT !.lastNew = e.now, !.nMin = 0, !.lastOld = IF sure \/ naks THEN e.now ELSE @,
+                        !.nMax = IF sure THEN 0 ELSE IF naks THEN @ + 1 ELSE @, !.on = stillOn]
+        ELSE LET limitFlt == HasFlt(e, "NAK_LIMIT_REACHED")
+                 surelyNot == e.now - st.lastOld < T.cfg.nakInt      \* not expired under any reading
+                 surely == e.now - st.lastNew >= T.cfg.nakInt        \* expired under every reading
+                 v1 == (IF surelyNot /\ naks THEN B("nak-sequence-re-issued-before-the-timer-expired") ELSE {})
+                       \cup (IF surelyNot /\ limitFlt THEN B("nak-limit-fault-before-the-timer-expired") ELSE {})
+                       \cup (IF limitFlt /\ st.nMax + 1 < T.cfg.nakLim THEN B("nak-limit-fault-before-the-limit-th-expiry") ELSE {})
+                       \cup (IF surely /\ st.nMin + 1 < T.cfg.nakLim /\ ~naks /\ ~limitFlt /\ stillOn THEN B("nak-sequence-not-re-issued-at-the-expiry") ELSE {})
+                       \cup (IF surely /\ st.nMin + 1 >= T.cfg.nakLim /\ ~limitFlt /\ stillOn THEN B("no-nak-limit-fault-at-the-limit-th-expiry") ELSE {}) IN
+             IF naks THEN [st EXCEPT !.v = @ \cup v1, !.nMax = @ + 1, !.nMin = @ + 1, !.lastOld = e.now, !.lastNew = e.now, !.on = stillOn]
+             ELSE [st EXCEPT !.v = @ \cup v1, !.on = stillOn /\ ~limitFlt]
+  IN FoldLeft(step, [on |-> FALSE, lastOld |-> 0, lastNew |-> 0, nMax |-> 0, nMin |-> 0, v |-> {}], ds).v
+\* a peer that has fallen silent (T.cuts: links cut for good) cannot keep a handler busy, except in the two waits the statement
+\* leaves unbounded: sender awaiting Finished after its EOF was acknowledged, receiver awaiting file data / EOF
+C04Silent(T) ==
+  IF T.cuts = <<>> THEN {} ELSE
+  LET ls == T.ev[LastIdx(OfSide(T, "S"))].post
+      dsIdx == OfSide(T, "D")
+      ld == IF dsIdx = {} THEN [state |-> "IDLE", step |-> "IDLE", deferred |-> FALSE] ELSE T.ev[LastIdx(dsIdx)].post
+      sOk == ls.state = "IDLE" \/ (ls.step = "WAITING_FOR_FINISHED" /\ EffModeT(T) = "ACK")
+      dOk == ld.state = "IDLE" \/ (ld.step \in {"RECEIVING_FILE_DATA", "WAITING_FOR_METADATA"} /\ ~ld.deferred) IN
+  (IF ~sOk THEN {V("C04", "sender-still-busy-although-the-peer-is-silent", Len(T.ev), Kf(T), ls.step, "")} ELSE {})
+  \cup (IF ~dOk THEN {V("C04", "receiver-still-busy-although-the-peer-is-silent", Len(T.ev), Kf(T), ld.step, "")} ELSE {})
+\* no PDU is re-sent without bound: per transaction at most 2 N EOF PDUs / Finished PDUs (N per condition code phase)
+C04Bound(T) ==
+  UNION { { V("C04", "more-eof-pdus-than-two-full-retry-rounds", 0, Kf(T), "", "") :
+            x \in { y \in {1} : Cardinality(EmitIdx(T, "S", qv, "EOF", Len(T.ev) + 1)) > 2 * T.cfg.ackLim } }
+          \cup { V("C04", "more-finished-pdus-than-two-full-retry-rounds", 0, Kf(T), "", "") :
+                 x \in { y \in {1} : Cardinality(EmitIdx(T, "D", qv, "FIN", Len(T.ev) + 1)) > 2 * T.cfg.ackLim } }
+          : qv \in SeqNums(T) }
+C04(T) ==
+  IF ~Has(T, "C04") THEN {} ELSE
+  C04Ack(T, "S", "EOF", "WAITING_FOR_EOF_ACK", T.cfg.ackLim) \cup C04Ack(T, "D", "FIN", "WAITING_FOR_FINISHED_ACK", T.cfg.ackLim)
+  \cup C04Nak(T) \cup (IF T.kind = "pair" THEN C04Silent(T) \cup C04Bound(T) ELSE {})
+
+Violations(T) == C01(T) \cup C02(T) \cup C03(T) \cup C10(T) \cup C07(T) \cup C08(T) \cup C19(T) \cup C05(T) \cup C06(T) \cup C15(T) \cup C12(T) \cup C13(T) \cup C14(T) \cup C14Table(T) \cup C04(T)
 ====
